@@ -49,6 +49,9 @@ def strategy(draw):
         case["assign"] = list(draw(st.permutations(["V", "N", "E"])))      # CH0, CH1, CH2
         case["north_rot"] = draw(st.one_of(st.just(0), st.integers(0, 359)))
         case["crlf"] = draw(st.booleans())
+        # the format allows '#' comment lines and any keyword order in the header: field notes of 0-150 lines
+        case["saf_comments"] = dict(n=draw(st.sampled_from([0, 0, 2, 12, 60, 150])), at=draw(st.sampled_from(["top", "middle", "mixed"])),
+                                    shuffle=draw(st.booleans()), seed=draw(gen.seeds32))
     if fmt == "minishark":
         case["gain"] = draw(st.sampled_from([1, 2, 4, 8, 64]))
         case["conversion"] = draw(st.sampled_from([1, 1000, 32768, 419430]))
@@ -70,6 +73,21 @@ def strategy(draw):
     case["multi"] = dict(nrec=draw(st.integers(1, 4)), dfn_mode=draw(st.sampled_from(["none", "scalar", "list"])),
                          kw_mode=draw(st.sampled_from(["none", "dict", "list"])), dfns=[draw(gen.floats(-720, 720)) for _ in range(4)],
                          skips=[draw(st.integers(0, 5)) for _ in range(4)])
+    return case
+
+
+BIG = {"quick": 16, "thorough": 128}
+
+
+@st.composite
+def strategy_big(draw):
+    """Long recordings: 2^12 .. 2^17 samples per component in every format (text formats grow to several MB)."""
+    case = draw(strategy())
+    case["n"] = draw(gen.big_size(2 ** 12, 2 ** 17))
+    if case["format"] == "peer":
+        case["lengths"] = [case["n"]] * 3
+    case["multi"]["nrec"] = 1
+    case["big"] = True
     return case
 
 
@@ -105,7 +123,27 @@ def _emit_saf(path, case, comps, rows_delta=0):
              f"NDAT = {n + rows_delta:010d}", "START_TIME = 2021 11 22 13 31 10.000", "CLIPPING SAMPLES = 0000000000 0000000000 0000000000",
              "SENSOR_TYPE = Velocity", "RESPFILE =", "ACQ_SYSTEM = generated", "STA_CODE = VF-01", "STA_COORD_TYPE = 0",
              f"NORTH_ROT = {case['north_rot']}", "UNITS = Counts", f"CH0_ID = {assign[0]}", f"CH1_ID = {assign[1]}", f"CH2_ID = {assign[2]}",
-             "STA_X =", "STA_Y =", "STA_Z = 0", "####--------------------------------"]
+             "STA_X =", "STA_Y =", "STA_Z = 0"]
+    c = case.get("saf_comments")
+    if c:
+        g = np.random.Generator(np.random.PCG64(c["seed"]))
+        first, keys = lines[0], lines[1:]
+        if c["shuffle"]:
+            keys = [keys[i] for i in g.permutation(len(keys))]
+        notes = [f"# field note {i + 1:03d}: " + " ".join(["wind gusts", "traffic on the road", "sensor re-levelled", "battery swapped", "cable checked",
+                                                              "site 12 line B", "gain unchanged"][int(j)] for j in g.integers(0, 7, size=3))
+                 for i in range(c["n"])]
+        if c["at"] == "top":
+            keys = notes + keys
+        elif c["at"] == "middle":
+            h = len(keys) // 2
+            keys = keys[:h] + notes + keys[h:]
+        else:
+            slots = sorted(g.integers(0, len(keys) + 1, size=len(notes)).tolist(), reverse=True)
+            for note, pos in zip(notes, slots):
+                keys.insert(pos, note)
+        lines = [first] + keys
+    lines.append("####--------------------------------")
     for i in range(n):
         lines.append(" ".join(str(int(cols[a][i])) for a in assign))
     _write_text(path, "\n".join(lines) + "\n", case["crlf"])
@@ -272,7 +310,7 @@ def check_case(case):
     from obspy import UTCDateTime
     tmp = tempfile.mkdtemp(prefix="vf-c07-")
     fmt = case["format"]
-    labels = [fmt]
+    labels = [fmt] + (["big-2^%d-samples" % int(np.log2(case["n"]))] if case.get("big") else [])
     try:
         neg = case["negative"]
         if neg == "garbage":
